@@ -1,4 +1,5 @@
 import Model.Pass.Lower
+import Proofs.Lemmas.Rewrite
 import Mathlib.Tactic.Ring
 /-!
 # C09 — lowering / restructuring passes preserve behaviour and meet their postconditions
@@ -144,5 +145,44 @@ theorem direct_connect_w (v wx wo : Nat) (h : wo ≤ wx) :
 
 example : (makeTree 5 5).leaves = 5 := by decide
 example : twoWay [(2, 3), (1, 0), (3, 5)] = (6, 53) := by decide
+
+/-! ### netlist level -/
+open Rewrite
+
+/-- the generic statement behind every lowering pass: a gadget over fresh wires that recomputes a net's
+    value may replace the net anywhere in a schedule (`Rewrite.rewrite_preserves`), re-exported here -/
+theorem local_rewrite_preserves (f : Net → List Nat → Nat) (F : Nat → Prop) (pre post gadget : List Net)
+    (n : Net) (e : Env) (hnF : ¬ F n.dest)
+    (hg : ∀ e' : Env, (∀ w, ¬ F w → w ≠ n.dest → evalSeq f gadget e' w = e' w) ∧
+                      evalSeq f gadget e' n.dest = f n (n.args.map e'))
+    (hpost : ∀ m ∈ post, ∀ a ∈ m.args, ¬ F a) :
+    ∀ w, ¬ F w → evalSeq f (pre ++ gadget ++ post) e w = evalSeq f (pre ++ n :: post) e w :=
+  rewrite_preserves f F pre post gadget n e hnF hg hpost
+
+/-- **`nand_synth` on a whole netlist**: replacing an AND net `d = a & c` (any width) anywhere in any
+    schedule by `t = a nand c; d = ~t` over a fresh wire `t` of the same width leaves every other wire —
+    in particular every Output and every register input — with exactly the value it had, in every cycle
+    (the valuation `e` and the state are arbitrary). -/
+theorem nand_synth_and_netlist (b : Block) (st : State) (pre post : List Net) (a c t d : Nat) (e : Env)
+    (hw : b.width t = b.width d) (htd : t ≠ d)
+    (hpost : ∀ m ∈ post, ∀ x ∈ m.args, x ≠ t) :
+    ∀ w, w ≠ t →
+      evalSeq (netFun b st) (pre ++ [⟨.nand, [a, c], [t]⟩, ⟨.inv, [t], [d]⟩] ++ post) e w
+        = evalSeq (netFun b st) (pre ++ ⟨.and, [a, c], [d]⟩ :: post) e w := by
+  apply rewrite_preserves (netFun b st) (· = t) pre post _ ⟨.and, [a, c], [d]⟩ e
+  · simpa [Net.dest] using Ne.symm htd
+  · intro e'
+    constructor
+    · intro w hwt hwd
+      simp only [evalSeq, Net.dest, List.headD_cons] at hwd ⊢
+      simp [upd, hwt, hwd]
+    · simp only [evalSeq, netFun, Net.dest, List.headD_cons, List.map_cons, List.map_nil, List.zip_cons_cons,
+        List.zip_nil_right, Spec.comb, upd, ↓reduceIte, hw, htd, Ne.symm htd]
+      have hm : (e' a &&& e' c) % 2 ^ b.width d < 2 ^ b.width d := Nat.mod_lt _ (Nat.two_pow_pos _)
+      generalize (e' a &&& e' c) % 2 ^ b.width d = m at *
+      have hp : 0 < 2 ^ b.width d := Nat.two_pow_pos _
+      rw [Nat.mod_eq_of_lt (by omega)]
+      omega
+  · exact hpost
 
 end Pyrtl.C09
